@@ -505,7 +505,7 @@ theorem emergency_acct (cfg : Cfg) (s : State) (h : Acct s) : Acct (emergency cf
   split
   · exact h
   · have h1 := count_take_drop s.queue (s.queue.length / 2)
-    have h2 := count_filter_split (succeeds cfg) (s.queue.take (s.queue.length / 2))
+    have h2 := count_filter_split (succeedsEm cfg) (s.queue.take (s.queue.length / 2))
     constructor
     · intro it
       have := h.occ_eq it
@@ -784,7 +784,7 @@ theorem emergency_tox {cfg : Cfg} {f : Item → Bool} (htd : cfg.toxDig = none) 
   · exact h
   · intro it
     have h0 := h it
-    have h2 := count_filter_split (succeeds cfg) (s.queue.take (s.queue.length / 2)) it
+    have h2 := count_filter_split (succeedsEm cfg) (s.queue.take (s.queue.length / 2)) it
     have h3 := count_filter_ite (callsToxic cfg) (s.queue.take (s.queue.length / 2)) it
     rw [callsToxic_builtin htd hot] at h3
     simp only [List.count_append]
@@ -1081,7 +1081,15 @@ theorem act_bin {cfg : Cfg} (htd : cfg.toxDig = none) (s : State) (a : Act) (h :
           intro ht
           rw [keysOf_toxic htd ht] at hk
           simp at hk
-      · exact h
+      · intro kv hkv
+        simp only at hkv
+        rcases dictUpdate_mem _ _ _ hkv with hkv | hkv
+        · exact h kv hkv
+        · simp only [List.mem_map] at hkv
+          obtain ⟨k, hk, rfl⟩ := hkv
+          intro ht
+          rw [keysOf_toxic htd ht] at hk
+          simp at hk
 
 theorem runActs_bin {cfg : Cfg} (htd : cfg.toxDig = none) :
     ∀ (as : List Act) (s : State), BinInv s → BinInv (runActs cfg s as) := by
